@@ -41,6 +41,12 @@
  *  enc <0..3> <hex>     buffer_append_string_encoded(ENCODING_REL_URI, _REL_URI_PART, _HTML, _MINIMAL_XML)
  *  redir <abs> <status> <hexscheme> <hexauthority> <hexpath> <hexquery>
  *                       http_response_redirect_to_directory() -> <http_status> <hex Location|Content-Location>
+ *  s1xx <status> <hdrs> interim response of h1_send_1xx() (hdrs as for prep) -> hex of what is queued on the connection
+ *  cfile <api> <chunked> <seed> <flen> <off> <len>
+ *                       response body taken from a file (content pat(seed,0..flen-1)) with resp_send_chunked = <chunked>:
+ *                       d http_chunk_append_file_fd (whole file), D http_chunk_append_file_fd_range(off,len),
+ *                       r http_chunk_append_file_ref (whole file), R http_chunk_append_file_ref_range(off,len)
+ *                       -> <rc> <hex of everything queued>   (small files are read into memory when chunked)
  *  clen <n>             chunk framing of http_chunk_append_file_fd_range(): <hex size line><file><hex CRLF>
  */
 #include "first.h"
@@ -66,6 +72,7 @@
 #include "plugin.h"
 #include "request.h"
 #include "response.h"
+#include "stat_cache.h"
 
 /* ---- scripted socket ------------------------------------------------------ */
 static const char *ws_p;           /* schedule cursor */
@@ -262,6 +269,8 @@ static plugin dummy_plugin;
 static uint16_t slots[256];
 static buffer server_tag;
 
+static void set_hdrs(request_st * const r, char *spec);
+
 static void cq_dump_hex(chunkqueue * const cq) {
     int any = 0;
     for (const chunk *c = cq->first; c; c = c->next) {
@@ -314,20 +323,7 @@ static void op_prep(void) {
     r->resp_send_chunked = 0;
     r->resp_decode_chunked = 0;
     r->resp_header_len = 0;
-    if (0 != strcmp(ltv_tok[7], "-")) {
-        char *save = NULL;
-        for (char *h = strtok_r(ltv_tok[7], ",", &save); h; h = strtok_r(NULL, ",", &save)) {
-            char *c1 = strchr(h, ':'); if (!c1) continue;
-            char *c2 = strchr(c1 + 1, ':'); if (!c2) continue;
-            *c1 = 0; *c2 = 0;
-            size_t kl, vl;
-            unsigned char *k = ltv_unhex(c1 + 1, &kl), *v = ltv_unhex(c2 + 1, &vl);
-            const enum http_header_e id = http_header_hkey_get((char *)k, kl);
-            if (h[0] == 'i') http_header_response_insert(r, id, (char *)k, kl, (char *)v, vl);
-            else             http_header_response_set(r, id, (char *)k, kl, (char *)v, vl);
-            free(k); free(v);
-        }
-    }
+    set_hdrs(r, ltv_tok[7]);
     { size_t n; unsigned char *b = ltv_unhex(ltv_tok[8], &n);
       if (n) chunkqueue_append_mem(&r->write_queue, (char *)b, n);
       free(b); }
@@ -394,6 +390,68 @@ static void op_redir(void) {
     array_reset_data_strings(&r->resp_headers);
 }
 
+static void set_hdrs(request_st * const r, char *spec) {
+    if (0 == strcmp(spec, "-")) return;
+    char *save = NULL;
+    for (char *h = strtok_r(spec, ",", &save); h; h = strtok_r(NULL, ",", &save)) {
+        char *c1 = strchr(h, ':'); if (!c1) continue;
+        char *c2 = strchr(c1 + 1, ':'); if (!c2) continue;
+        *c1 = 0; *c2 = 0;
+        size_t kl, vl;
+        unsigned char *k = ltv_unhex(c1 + 1, &kl), *v = ltv_unhex(c2 + 1, &vl);
+        const enum http_header_e id = http_header_hkey_get((char *)k, kl);
+        if (h[0] == 'i') http_header_response_insert(r, id, (char *)k, kl, (char *)v, vl);
+        else             http_header_response_set(r, id, (char *)k, kl, (char *)v, vl);
+        free(k); free(v);
+    }
+}
+
+static void op_s1xx(void) {
+    if (ltv_ntok != 3) { puts("bad-op"); return; }
+    request_st * const r = &con.request;
+    r->http_status = atoi(ltv_tok[1]);
+    r->http_version = HTTP_VERSION_1_1;
+    set_hdrs(r, ltv_tok[2]);
+    chunkqueue_reset(&r->write_queue);
+    con.traffic_limit_reached = 1;      /*(queued, to be sent with the next write: nothing is written here)*/
+    int rc = h1_send_1xx(r, &con);
+    con.traffic_limit_reached = 0;
+    printf("%d ", rc);
+    cq_dump_all(con.write_queue);
+    fputc('\n', stdout);
+    r->resp_htags = 0;
+    array_reset_data_strings(&r->resp_headers);
+    chunkqueue_reset(&r->write_queue);
+}
+
+static void op_cfile(void) {
+    if (ltv_ntok != 7) { puts("bad-op"); return; }
+    request_st * const r = &con.request;
+    const int api = ltv_tok[1][0];
+    const unsigned long seed = strtoul(ltv_tok[3], NULL, 10), flen = strtoul(ltv_tok[4], NULL, 10);
+    const off_t off = (off_t)atoll(ltv_tok[5]), len = (off_t)atoll(ltv_tok[6]);
+    chunkqueue_reset(&r->write_queue);
+    r->resp_send_chunked = (char)atoi(ltv_tok[2]);
+    const char *path = src_file(seed, flen);
+    buffer fn; memset(&fn, 0, sizeof(fn));
+    buffer_copy_string(&fn, path);
+    int rc = 0;
+    if (api == 'd')      rc = http_chunk_append_file_fd(r, &fn, open(path, O_RDONLY), (off_t)flen);
+    else if (api == 'D') http_chunk_append_file_fd_range(r, &fn, open(path, O_RDONLY), off, len);
+    else {
+        stat_cache_entry * const sce = stat_cache_get_entry_open(&fn, 1);
+        if (NULL == sce) { puts("no-sce"); free(fn.ptr); return; }
+        if (api == 'r') rc = http_chunk_append_file_ref(r, sce);
+        else            http_chunk_append_file_ref_range(r, sce, off, len);
+    }
+    printf("%d ", rc);
+    cq_dump_all(&r->write_queue);
+    fputc('\n', stdout);
+    free(fn.ptr);
+    r->resp_send_chunked = 0;
+    chunkqueue_reset(&r->write_queue);
+}
+
 static void op_clen(void) {
     if (ltv_ntok != 2) { puts("bad-op"); return; }
     request_st * const r = &con.request;
@@ -447,6 +505,8 @@ int main(void) {
         else if (0 == strcmp(op, "enc")) op_enc();
         else if (0 == strcmp(op, "redir")) op_redir();
         else if (0 == strcmp(op, "clen")) op_clen();
+        else if (0 == strcmp(op, "cfile")) op_cfile();
+        else if (0 == strcmp(op, "s1xx")) op_s1xx();
         else puts("bad-op");
         fflush(stdout);
     }
